@@ -29,6 +29,11 @@ func (h *Hist) call(from, contract types.Address, z types.ZenonTokenStandard, am
 	return err == nil && b != nil
 }
 
+// ActCall submits one call to a contract (exported form of call for property-specific actions).
+func (h *Hist) ActCall(from, contract types.Address, z types.ZenonTokenStandard, amt *big.Int, data []byte, descr string) bool {
+	return h.call(from, contract, z, amt, data, descr)
+}
+
 // HtlcSecret remembers preimages of hash locks created by the harness.
 type HtlcSecret struct {
 	Id       types.Hash
@@ -49,8 +54,9 @@ func DefaultIntents() []Intent {
 		{"collect-reward", intentCollect}, {"donate", intentDonate},
 		{"htlc-create", intentHtlcCreate}, {"htlc-unlock", intentHtlcUnlock}, {"htlc-reclaim", intentHtlcReclaim},
 		{"htlc-proxy", intentHtlcProxy},
-		{"pillar-register", intentPillarRegister}, {"pillar-revoke", intentPillarRevoke},
+		{"pillar-register", intentPillarRegister}, {"pillar-revoke", intentPillarRevoke}, {"pillar-update", intentPillarUpdate},
 		{"accelerator-project", intentProject}, {"accelerator-vote", intentVote},
+		{"accelerator-add-phase", intentAddPhase}, {"accelerator-update-phase", intentUpdatePhase},
 	}
 }
 
@@ -432,6 +438,29 @@ func intentPillarRevoke(h *Hist) bool {
 		fmt.Sprintf("pillar.Revoke(%s) byOwner=%v", p.Name, from == p.StakeAddress))
 }
 
+// intentPillarUpdate: the owner of a pillar changes its reward address, its percentages and sometimes its producer.
+func intentPillarUpdate(h *Hist) bool {
+	c := h.C
+	st := h.A.Chain.GetFrontierAccountStore(types.PillarContract).Storage()
+	list, err := definition.GetPillarsList(st, true, definition.AnyPillarType)
+	if err != nil || len(list) == 0 {
+		return false
+	}
+	p := list[c.Pick("pu.idx", len(list))]
+	from := p.StakeAddress
+	if h.W.Keys.ByAddr[from] == nil {
+		return false
+	}
+	prod := p.BlockProducingAddress
+	if c.Weighted("pu.newProducer", 4, 1) == 1 {
+		prod = h.user("pu.prod")
+	}
+	reward := h.user("pu.reward")
+	data := definition.ABIPillars.PackMethodPanic(definition.UpdatePillarMethodName, p.Name, prod, reward, uint8(c.Int("pu.give1", 0, 100)), uint8(c.Int("pu.give2", 0, 100)))
+	return h.call(from, types.PillarContract, types.ZnnTokenStandard, big.NewInt(0), data,
+		fmt.Sprintf("pillar.UpdatePillar(%s, prod=%s, reward=%s)", p.Name, short(prod), short(reward)))
+}
+
 func intentProject(h *Hist) bool {
 	c := h.C
 	from := h.user("pj.from")
@@ -460,4 +489,36 @@ func intentVote(h *Hist) bool {
 	from := PillarKey(ps.Key).Address
 	data := definition.ABICommon.PackMethodPanic(definition.VoteByNameMethodName, id, ps.Name, uint8(c.Int("vt.vote", 0, 3)))
 	return h.call(from, types.AcceleratorContract, types.ZnnTokenStandard, big.NewInt(0), data, fmt.Sprintf("accelerator.VoteByName(%s, %s)", id.String()[:8], ps.Name))
+}
+
+// projectOwner returns the creator of the project whose id is the hash of its creating send.
+func (h *Hist) projectOwner(id types.Hash) (types.Address, bool) {
+	for _, s := range h.Sends {
+		if s.Hash == id {
+			return s.Address, true
+		}
+	}
+	return types.Address{}, false
+}
+
+func phaseCall(h *Hist, method, pfx string) bool {
+	c := h.C
+	if len(h.Projects) == 0 {
+		return false
+	}
+	id := h.Projects[c.Pick(pfx+".proj", len(h.Projects))]
+	from, ok := h.projectOwner(id)
+	if !ok || c.Weighted(pfx+".byOther", 6, 1) == 1 {
+		from = h.user(pfx + ".from")
+	}
+	data := definition.ABIAccelerator.PackMethodPanic(method, id, fmt.Sprintf("phase-%d", c.Int(pfx+".n", 0, 9)), "a verif phase", "www.verif.test",
+		zq(int64(c.Int(pfx+".znn", 0, 5000))), zq(int64(c.Int(pfx+".qsr", 0, 50000))))
+	return h.call(from, types.AcceleratorContract, types.ZnnTokenStandard, big.NewInt(0), data, fmt.Sprintf("accelerator.%s(%s)", method, id.String()[:8]))
+}
+
+// intentAddPhase / intentUpdatePhase: the owner of a project (sometimes someone else) adds or replaces a phase,
+// whatever the state of the project (not voted yet, no phase yet, phase paid).
+func intentAddPhase(h *Hist) bool { return phaseCall(h, definition.AddPhaseMethodName, "aph") }
+func intentUpdatePhase(h *Hist) bool {
+	return phaseCall(h, definition.UpdatePhaseMethodName, "uph")
 }
